@@ -25,6 +25,21 @@ def run_case(case, rec, cid):
             rec.ev("RoundTrip", cid, p=proj_tp(p), d=proj_dur(d), ok=False, cls=type(v).__name__, r=proj_dur(d), eq=False)
         return True
     a, b = mk_tp(case["a"]), mk_tp(case["b"])
+    if case.get("years") is not None:
+        # a three-step sequence on the same objects: look at b (whatever it remembers about itself is now filled in), derive q from
+        # it by whole years only, subtract
+        st, _ = outcome(lambda: (b.get_ordinal_date(), b.day_of_year, hash(b), b - a, b.get_week_date()))
+        from harness.common import Duration as _D
+        for yrs in case["years"]:
+            st, q = outcome(lambda: b + _D(years=yrs))
+            if st != "ok":
+                continue
+            for x, y in ((q, b), (b, q)):
+                st, d = outcome(lambda x=x, y=y: x - y)
+                if st == "ok":
+                    rec.ev("SubTP", cid, a=proj_tp(x), b=proj_tp(y), d=proj_dur(d), ok=True, cls="")
+                else:
+                    rec.ev("SubTP", cid, a=proj_tp(x), b=proj_tp(y), d=proj_dur(None), ok=False, cls=type(d).__name__)
     if case.get("also") is not None:      # the same minuend written differently, same subtrahend, same process
         from harness.common import respellings
         for q in respellings(a, random.Random(case["also"])):
@@ -74,6 +89,15 @@ def expand(job):
         else:
             b = gen.rand_point(rnd, m, wide=rnd.random() < 0.3, whole=rnd.random() < 0.85)
         case = {"mode": sp, "a": a, "b": b}
+        if rnd.random() < 0.08 and "dec" not in b and abs(b["y"]) < 900000:
+            case["years"] = [rnd.choice([1, -1, 4, -4, 100, 400]), rnd.choice([1, 2, -3])]
+        if rnd.random() < 0.06 and "dec" not in a:
+            # the same clock reading in two offsets whose hour parts and minute parts differ in opposite directions
+            z1, z2 = rnd.choice([((5, 15), (3, 45)), ((-5, -15), (-3, -45)), ((1, 0), (0, 30)), ((5, 30), (-3, -45)), ((0, 45), (1, 15)), ((13, 45), (12, 59))])
+            if rnd.random() < 0.5:
+                z1, z2 = z2, z1
+            case["a"] = dict(a, zh=z1[0], zm=z1[1])
+            case["b"] = dict(a, zh=z2[0], zm=z2[1])
         if "dec" not in a and a["prec"] == "hms" and a["hh"] < 24 and abs(a["y"]) < 900000 and rnd.random() < 0.1:
             case["also"] = rnd.randrange(10 ** 6)
         yield case
